@@ -122,25 +122,63 @@ def rule_ownership_guard(ctx):
     r = RuleResult(
         "ownership-guard",
         "kron validates a requested row range against the product dimension and rejects it otherwise (raise), and slices the "
-        "rows that the per-factor slicing over-produced with both end offsets",
+        "rows that the per-factor slicing over-produced with both end offsets (def-use from the `ownership` parameter; local names are free)",
     )
     f = ctx.prog.func(CORE, "kron")
     where = f"{f.module.relpath}:{f.lineno}"
+    if "ownership" not in f.params:
+        raise AnalysisError("ownership-guard: kron lost its ownership parameter")
+    # the two locals unpacked from `ownership`
+    ends = None
+    for a in ast.walk(f.node):
+        if isinstance(a, ast.Assign) and isinstance(a.targets[0], ast.Tuple) and len(a.targets[0].elts) == 2 and isinstance(a.value, ast.Name) and a.value.id == "ownership" \
+                and all(isinstance(e, ast.Name) for e in a.targets[0].elts):
+            ends = tuple(e.id for e in a.targets[0].elts)
+    if ends is None:
+        raise AnalysisError("ownership-guard: `ownership` is no longer unpacked into two locals in kron")
     guards = [n for n in ast.walk(f.node) if isinstance(n, ast.If) and any(isinstance(x, ast.Raise) for x in n.body)
-              and {"ri", "rf"} <= {y.id for y in ast.walk(n.test) if isinstance(y, ast.Name)}]
+              and set(ends) <= {y.id for y in ast.walk(n.test) if isinstance(y, ast.Name)}]
     if guards:
         r.ok("kron[range]", sample={"guard": src_of(guards[0].test)})
     else:
         r.bad(Finding("ownership-guard", "kron", "a row range outside [0, D] is not rejected", where=where, operand="range"))
-    sl = [n for n in ast.walk(f.node) if isinstance(n, ast.Subscript) and isinstance(n.slice, ast.Tuple) and isinstance(n.slice.elts[0], ast.Slice)
-          and isinstance(n.value, ast.Name) and n.value.id == "X"]
+    # names derived (transitively) from each end of the range
+    def derived(seed):
+        out = {seed}
+        changed = True
+        while changed:
+            changed = False
+            for a in ast.walk(f.node):
+                if isinstance(a, ast.Assign):
+                    tg, val = a.targets[0], a.value
+                    pairs = []
+                    if isinstance(tg, ast.Tuple) and isinstance(val, ast.Tuple) and len(tg.elts) == len(val.elts):
+                        pairs = list(zip(tg.elts, val.elts))
+                    elif isinstance(tg, ast.Name):
+                        pairs = [(tg, val)]
+                    for t_, v_ in pairs:
+                        if isinstance(t_, ast.Name) and t_.id not in out and any(isinstance(y, ast.Name) and y.id in out for y in ast.walk(v_)):
+                            # an offset, not the product itself: arithmetic on the end point
+                            if isinstance(v_, (ast.BinOp, ast.Name)):
+                                out.add(t_.id)
+                                changed = True
+        return out
+    d_lo, d_hi = derived(ends[0]), derived(ends[1])
+    # the result of the core product, and a row slice of it whose two bounds depend on the two ends
     ok = False
-    for s_ in sl:
-        lo, hi = s_.slice.elts[0].lower, s_.slice.elts[0].upper
-        if lo is not None and hi is not None and "di" in src_of(lo) and "df" in src_of(hi):
-            ok = True
+    first = None
+    for n in ast.walk(f.node):
+        if isinstance(n, ast.Subscript) and isinstance(n.value, ast.Name):
+            sl = n.slice.elts[0] if isinstance(n.slice, ast.Tuple) and n.slice.elts else n.slice
+            if isinstance(sl, ast.Slice) and sl.lower is not None and sl.upper is not None:
+                first = first or n
+                lo_names = {y.id for y in ast.walk(sl.lower) if isinstance(y, ast.Name)}
+                hi_names = {y.id for y in ast.walk(sl.upper) if isinstance(y, ast.Name)}
+                if lo_names & d_lo and hi_names & d_hi:
+                    ok = True
+                    first = n
     if ok:
-        r.ok("kron[trim]", sample={"trim": src_of(sl[0])})
+        r.ok("kron[trim]", sample={"trim": src_of(first)})
     else:
-        r.bad(Finding("ownership-guard", "kron", "over-produced rows are not trimmed at both ends", where=where, operand="trim"))
+        r.bad(Finding("ownership-guard", "kron", "over-produced rows are not trimmed at both ends (no row slice whose lower bound derives from the start and whose upper bound derives from the stop of the range)", where=where, operand="trim"))
     return r
